@@ -1,4 +1,393 @@
-import DuneVerif.Model.C01
+import Mathlib.Algebra.Star.Basic
+import Mathlib.Algebra.Star.BigOperators
+import Mathlib.Algebra.Field.Basic
+import DuneVerif.Proofs.C01
+/-!
+C01 — dense matrices act as the linear map they store, in every representation.
+
+All theorems hold for every commutative ring `R`, every conjugation function `conj : R → R` (only
+`rep_interchangeable` and the product theorems built on it need `conj 0 = 0`; `dot_conj_symm` needs a star ring),
+every shape and all entries.  `kernelSem Gen.sig_<k>` is the model's loop-nest interpreter run on the table that
+`tools/translators/tr_c01.py` regenerates from densematrix.hh on every check run — if the C++ update statement of a
+kernel changes (index, operator, alpha, conjugate), `Gen.sig_<k>` changes and the theorem below stops checking.
+
+A written vector is a `Vec R`; `y.get i` is `y[i]`.  Every kernel theorem also states the frame: entries outside
+the result range are left alone.
+-/
+open Finset
+
 namespace DV.C01
-theorem placeholder : True := trivial
+
+variable {R : Type*} [CommRing R] (conj : R → R)
+
+/-! ## the eleven kernels of densematrix.hh -/
+section kernels
+variable (rows cols : Nat) (A : Nat → Nat → R) (alpha : R) (x : Nat → R) (y : Vec R)
+
+/-- `A.mv(x,y)`: y = A x -/
+theorem mv_spec (i : Nat) :
+    (kernelSem Gen.sig_mv conj rows cols A alpha x y).get i
+      = if i < rows then ∑ j ∈ range cols, A i j * x j else y.get i := by
+  have h := outer_fixed rows cols (fun o n => A o n * x n) true y i
+  simpa [kernelSem, Gen.sig_mv, bound, sel, applyUpd, rhs] using h
+
+/-- `A.mtv(x,y)`: y = Aᵀ x -/
+theorem mtv_spec (j : Nat) :
+    (kernelSem Gen.sig_mtv conj rows cols A alpha x y).get j
+      = if j < cols then ∑ i ∈ range rows, A i j * x i else y.get j := by
+  have h := outer_fixed cols rows (fun o n => A n o * x n) true y j
+  simpa [kernelSem, Gen.sig_mtv, bound, sel, applyUpd, rhs] using h
+
+/-- `A.umv(x,y)`: y += A x -/
+theorem umv_spec (i : Nat) :
+    (kernelSem Gen.sig_umv conj rows cols A alpha x y).get i
+      = if i < rows then y.get i + ∑ j ∈ range cols, A i j * x j else y.get i := by
+  have h := outer_fixed rows cols (fun o n => A o n * x n) false y i
+  simpa [kernelSem, Gen.sig_umv, bound, sel, applyUpd, rhs] using h
+
+/-- `A.umtv(x,y)`: y += Aᵀ x -/
+theorem umtv_spec (j : Nat) :
+    (kernelSem Gen.sig_umtv conj rows cols A alpha x y).get j
+      = if j < cols then y.get j + ∑ i ∈ range rows, A i j * x i else y.get j := by
+  have h := outer_moving rows cols (fun o n => A o n * x o) y j
+  simpa [kernelSem, Gen.sig_umtv, bound, sel, applyUpd, rhs] using h
+
+/-- `A.umhv(x,y)`: y += Aᴴ x (entries conjugated) -/
+theorem umhv_spec (j : Nat) :
+    (kernelSem Gen.sig_umhv conj rows cols A alpha x y).get j
+      = if j < cols then y.get j + ∑ i ∈ range rows, conj (A i j) * x i else y.get j := by
+  have h := outer_moving rows cols (fun o n => conj (A o n) * x o) y j
+  simpa [kernelSem, Gen.sig_umhv, bound, sel, applyUpd, rhs] using h
+
+/-- `A.mmv(x,y)`: y -= A x -/
+theorem mmv_spec (i : Nat) :
+    (kernelSem Gen.sig_mmv conj rows cols A alpha x y).get i
+      = if i < rows then y.get i - ∑ j ∈ range cols, A i j * x j else y.get i := by
+  have h := outer_fixed rows cols (fun o n => -(A o n * x n)) false y i
+  simpa [kernelSem, Gen.sig_mmv, bound, sel, applyUpd, rhs, sub_eq_add_neg] using h
+
+/-- `A.mmtv(x,y)`: y -= Aᵀ x -/
+theorem mmtv_spec (j : Nat) :
+    (kernelSem Gen.sig_mmtv conj rows cols A alpha x y).get j
+      = if j < cols then y.get j - ∑ i ∈ range rows, A i j * x i else y.get j := by
+  have h := outer_moving rows cols (fun o n => -(A o n * x o)) y j
+  simpa [kernelSem, Gen.sig_mmtv, bound, sel, applyUpd, rhs, sub_eq_add_neg] using h
+
+/-- `A.mmhv(x,y)`: y -= Aᴴ x -/
+theorem mmhv_spec (j : Nat) :
+    (kernelSem Gen.sig_mmhv conj rows cols A alpha x y).get j
+      = if j < cols then y.get j - ∑ i ∈ range rows, conj (A i j) * x i else y.get j := by
+  have h := outer_moving rows cols (fun o n => -(conj (A o n) * x o)) y j
+  simpa [kernelSem, Gen.sig_mmhv, bound, sel, applyUpd, rhs, sub_eq_add_neg] using h
+
+/-- `A.usmv(alpha,x,y)`: y += alpha A x -/
+theorem usmv_spec (i : Nat) :
+    (kernelSem Gen.sig_usmv conj rows cols A alpha x y).get i
+      = if i < rows then y.get i + alpha * ∑ j ∈ range cols, A i j * x j else y.get i := by
+  have h := outer_fixed rows cols (fun o n => alpha * A o n * x n) false y i
+  simpa [kernelSem, Gen.sig_usmv, bound, sel, applyUpd, rhs, mul_sum, mul_assoc] using h
+
+/-- `A.usmtv(alpha,x,y)`: y += alpha Aᵀ x -/
+theorem usmtv_spec (j : Nat) :
+    (kernelSem Gen.sig_usmtv conj rows cols A alpha x y).get j
+      = if j < cols then y.get j + alpha * ∑ i ∈ range rows, A i j * x i else y.get j := by
+  have h := outer_moving rows cols (fun o n => alpha * A o n * x o) y j
+  simpa [kernelSem, Gen.sig_usmtv, bound, sel, applyUpd, rhs, mul_sum, mul_assoc] using h
+
+/-- `A.usmhv(alpha,x,y)`: y += alpha Aᴴ x -/
+theorem usmhv_spec (j : Nat) :
+    (kernelSem Gen.sig_usmhv conj rows cols A alpha x y).get j
+      = if j < cols then y.get j + alpha * ∑ i ∈ range rows, conj (A i j) * x i else y.get j := by
+  have h := outer_moving rows cols (fun o n => alpha * conj (A o n) * x o) y j
+  simpa [kernelSem, Gen.sig_usmhv, bound, sel, applyUpd, rhs, mul_sum, mul_assoc] using h
+
+end kernels
+
+-- non-vacuity: the interpreter really runs the generated tables (Gaussian-integer-free instance: `Int`, conj = negation
+-- so that a dropped conjugate is visible); A = [[1,2],[3,4]], x = (1,1), y = (10,20), alpha = 2
+example : (List.range 2).map (kernelSem Gen.sig_umtv (fun z : Int => -z) 2 2 (fun i j => 2*i+j+1) 2 (fun _ => 1)
+    ⟨2, fun i => 10 * (i+1)⟩).get = [14, 26] := by decide
+example : (List.range 2).map (kernelSem Gen.sig_usmhv (fun z : Int => -z) 2 2 (fun i j => 2*i+j+1) 2 (fun _ => 1)
+    ⟨2, fun i => 10 * (i+1)⟩).get = [2, 8] := by decide
+example : (List.range 2).map (kernelSem Gen.sig_mv (fun z : Int => -z) 2 2 (fun i j => 2*i+j+1) 2 (fun _ => 1)
+    ⟨2, fun i => 10 * (i+1)⟩).get = [3, 7] := by decide
+
+/-! ## representations are interchangeable -/
+
+/-- The algebraic definition of kernel `k` for the full matrix `M` (new value of `y[i]`); part of the statement of
+`dense_kernel_spec` and `rep_interchangeable`. -/
+def kernelSpec (k : KName) (M : Mat R) (alpha : R) (x y : Nat → R) (i : Nat) : R :=
+  match k with
+  | .mv => if i < M.rows then ∑ j ∈ range M.cols, M.e i j * x j else y i
+  | .mtv => if i < M.cols then ∑ l ∈ range M.rows, M.e l i * x l else y i
+  | .umv => if i < M.rows then y i + ∑ j ∈ range M.cols, M.e i j * x j else y i
+  | .umtv => if i < M.cols then y i + ∑ l ∈ range M.rows, M.e l i * x l else y i
+  | .umhv => if i < M.cols then y i + ∑ l ∈ range M.rows, conj (M.e l i) * x l else y i
+  | .mmv => if i < M.rows then y i - ∑ j ∈ range M.cols, M.e i j * x j else y i
+  | .mmtv => if i < M.cols then y i - ∑ l ∈ range M.rows, M.e l i * x l else y i
+  | .mmhv => if i < M.cols then y i - ∑ l ∈ range M.rows, conj (M.e l i) * x l else y i
+  | .usmv => if i < M.rows then y i + alpha * ∑ j ∈ range M.cols, M.e i j * x j else y i
+  | .usmtv => if i < M.cols then y i + alpha * ∑ l ∈ range M.rows, M.e l i * x l else y i
+  | .usmhv => if i < M.cols then y i + alpha * ∑ l ∈ range M.rows, conj (M.e l i) * x l else y i
+
+/-- every dense kernel (FieldMatrix, DynamicMatrix, ScalarMatrixView) computes its algebraic definition -/
+theorem dense_kernel_spec (k : KName) (M : Mat R) (alpha : R) (x : Nat → R) (y : Vec R) (i : Nat) :
+    (kernelSem (Gen.denseSig k) conj M.rows M.cols M.e alpha x y).get i = kernelSpec conj k M alpha x y.get i := by
+  cases k <;> simp only [Gen.denseSig, kernelSpec]
+  · exact mv_spec conj _ _ _ _ _ _ i
+  · exact mtv_spec conj _ _ _ _ _ _ i
+  · exact umv_spec conj _ _ _ _ _ _ i
+  · exact umtv_spec conj _ _ _ _ _ _ i
+  · exact umhv_spec conj _ _ _ _ _ _ i
+  · exact mmv_spec conj _ _ _ _ _ _ i
+  · exact mmtv_spec conj _ _ _ _ _ _ i
+  · exact mmhv_spec conj _ _ _ _ _ _ i
+  · exact usmv_spec conj _ _ _ _ _ _ i
+  · exact usmtv_spec conj _ _ _ _ _ _ i
+  · exact usmhv_spec conj _ _ _ _ _ _ i
+
+/-- the kernels of DiagonalMatrix (tables `Gen.dsig_*` read from diagonalmatrix.hh) give what the dense kernels give
+for the full matrix with the same entries -/
+theorem diag_kernel_spec (h0 : conj 0 = 0) (k : KName) (n : Nat) (d : Nat → R) (alpha : R) (x : Nat → R) (y : Vec R)
+    (i : Nat) :
+    (diagKernelSem (Gen.diagSig k) conj n d alpha x y).get i
+      = kernelSpec conj k (Rep.toFull (.diag n d)) alpha x y.get i := by
+  unfold diagKernelSem
+  rw [diag_loop n (fun i v => applyUpd (Gen.diagSig k).upd v (rhs (Gen.diagSig k).alpha (Gen.diagSig k).conj conj alpha (d i) (x i)))]
+  by_cases hi : i < n
+  · have hh := sum_diag_col conj h0 n d x i hi
+    cases k <;>
+      simp [Gen.diagSig, Gen.dsig_mv, Gen.dsig_mtv, Gen.dsig_umv, Gen.dsig_umtv, Gen.dsig_umhv, Gen.dsig_mmv,
+        Gen.dsig_mmtv, Gen.dsig_mmhv, Gen.dsig_usmv, Gen.dsig_usmtv, Gen.dsig_usmhv, kernelSpec, Rep.toFull, hi,
+        applyUpd, rhs, hh, mul_assoc]
+  · cases k <;> simp [kernelSpec, Rep.toFull, hi]
+
+/-- **Representations are interchangeable.**  Every kernel a representation offers (all eleven for full, diagonal and
+1x1-scalar-view matrices; `mv`/`mtv` — forwarded as read from transpose.hh — for transposed views, nested arbitrarily)
+gives exactly the algebraic result for the full matrix with the same entries. -/
+theorem rep_interchangeable (h0 : conj 0 = 0) (rep : Rep R) :
+    ∀ (k : KName), offers k rep = true → ∀ (alpha : R) (x : Nat → R) (y : Vec R) (i : Nat),
+      (repKernel conj k rep alpha x y).get i = kernelSpec conj k rep.toFull alpha x y.get i := by
+  induction rep with
+  | full m => intro k _ alpha x y i; exact dense_kernel_spec conj k m alpha x y i
+  | diag n d => intro k _ alpha x y i; exact diag_kernel_spec conj h0 k n d alpha x y i
+  | scalar a =>
+    intro k _ alpha x y i
+    exact dense_kernel_spec conj k ⟨1, 1, fun _ _ => a⟩ alpha x y i
+  | transposed r ih =>
+    intro k hk alpha x y i
+    cases k
+    case mv =>
+      -- mv on the view = mtv on the wrapped matrix
+      simp only [offers, Gen.wrapFwd] at hk
+      simp only [repKernel, Gen.wrapFwd]
+      rw [ih _ hk]
+      rfl
+    case mtv =>
+      -- mtv on the view = mv on the wrapped matrix
+      simp only [offers, Gen.wrapFwd] at hk
+      simp only [repKernel, Gen.wrapFwd]
+      rw [ih _ hk]
+      rfl
+    all_goals (simp [offers, Gen.wrapFwd] at hk)
+
+-- non-vacuity: a transposed view of a transposed view of a diagonal matrix offers `mv`
+example : offers .mv (.transposed (.transposed (.diag 3 (fun i => (i : Int))))) = true := by decide
+
+/-! ## matrix-matrix products -/
+
+/-- `operator*(FieldMatrix, FieldMatrix)`: (A B)ᵢⱼ = Σₖ Aᵢₖ Bₖⱼ -/
+theorem matmul_spec (A B : Mat R) (i j : Nat) :
+    (matmul A B).e i j = ∑ k ∈ range A.cols, A.e i k * B.e k j
+    ∧ (matmul A B).rows = A.rows ∧ (matmul A B).cols = B.cols :=
+  ⟨sumLoop_eq _ _, rfl, rfl⟩
+
+/-- the FieldMatrix<K,1,1> specialisation of `operator*` agrees with the general one -/
+theorem matmul11_spec (A B : Mat R) (hc : A.cols = 1) (j : Nat) :
+    (matmul11 A B).e 0 j = (matmul A B).e 0 j := by
+  simp [matmul11, (matmul_spec A B 0 j).1, hc]
+
+/-- `FieldMatrix * OtherMatrix` (diagonal, scalar view, transposed view …) built from `mtv`, as read from fmatrix.hh -/
+theorem mulFmOther_spec (h0 : conj 0 = 0) (A : Mat R) (B : Rep R) (hk : offers Gen.fmMulOther B = true)
+    (hd : A.cols = B.rows) (i j : Nat) (hj : j < B.cols) :
+    (mulFmOther conj Gen.fmMulOther A B).e i j = ∑ k ∈ range A.cols, A.e i k * B.toFull.e k j := by
+  have h := rep_interchangeable conj h0 B Gen.fmMulOther hk 0 (A.e i) (zeroVec B.cols) j
+  simp only [mulFmOther]
+  rw [h]
+  simp [Gen.fmMulOther, kernelSpec, toFull_cols, toFull_rows, hj, hd, mul_comm]
+
+/-- same for the FieldMatrix<K,1,1> class -/
+theorem mulFm11Other_spec (h0 : conj 0 = 0) (A : Mat R) (B : Rep R) (hk : offers Gen.fm11MulOther B = true)
+    (hd : A.cols = B.rows) (i j : Nat) (hj : j < B.cols) :
+    (mulFmOther conj Gen.fm11MulOther A B).e i j = ∑ k ∈ range A.cols, A.e i k * B.toFull.e k j := by
+  have h := rep_interchangeable conj h0 B Gen.fm11MulOther hk 0 (A.e i) (zeroVec B.cols) j
+  simp only [mulFmOther]
+  rw [h]
+  simp [Gen.fm11MulOther, kernelSpec, toFull_cols, toFull_rows, hj, hd, mul_comm]
+
+/-- `OtherMatrix * FieldMatrix` built column by column from `mv`, as read from fmatrix.hh -/
+theorem mulOtherFm_spec (h0 : conj 0 = 0) (A : Rep R) (B : Mat R) (hk : offers Gen.otherMulFm A = true)
+    (i j : Nat) (hi : i < A.rows) :
+    (mulOtherFm conj Gen.otherMulFm A B).e i j = ∑ k ∈ range A.cols, A.toFull.e i k * B.e k j := by
+  have h := rep_interchangeable conj h0 A Gen.otherMulFm hk 0 (fun l => B.e l j) (zeroVec A.rows) i
+  simp only [mulOtherFm]
+  rw [h]
+  simp [Gen.otherMulFm, kernelSpec, toFull_cols, toFull_rows, hi]
+
+theorem mulOtherFm11_spec (h0 : conj 0 = 0) (A : Rep R) (B : Mat R) (hk : offers Gen.otherMulFm11 A = true)
+    (i j : Nat) (hi : i < A.rows) :
+    (mulOtherFm conj Gen.otherMulFm11 A B).e i j = ∑ k ∈ range A.cols, A.toFull.e i k * B.e k j := by
+  have h := rep_interchangeable conj h0 A Gen.otherMulFm11 hk 0 (fun l => B.e l j) (zeroVec A.rows) i
+  simp only [mulOtherFm]
+  rw [h]
+  simp [Gen.otherMulFm11, kernelSpec, toFull_cols, toFull_rows, hi]
+
+/-- `A * transposedView(B)` (transpose.hh): (A Bᵀ)ᵢⱼ = Σₖ Aᵢₖ Bⱼₖ, for both branches of the source -/
+theorem mulTransposedView_spec (h0 : conj 0 = 0) (A : Mat R) (B : Rep R) (k : KName)
+    (hkk : k = Gen.twMulDynamic ∨ k = Gen.twMulStatic) (hk : offers k B = true)
+    (hd : A.cols = B.cols) (i j : Nat) (hj : j < B.rows) :
+    (mulTransposedView conj k A B).e i j = ∑ l ∈ range A.cols, A.e i l * B.toFull.e j l := by
+  have h := rep_interchangeable conj h0 B k hk 0 (A.e i) (zeroVec B.rows) j
+  simp only [mulTransposedView]
+  rw [h]
+  rcases hkk with rfl | rfl <;>
+    simp [Gen.twMulDynamic, Gen.twMulStatic, kernelSpec, toFull_cols, toFull_rows, hj, hd, mul_comm]
+
+/-- `DiagonalMatrix * DiagonalMatrix` is the product of the full matrices -/
+theorem mulDiag_spec (n : Nat) (d e : Nat → R) (i j : Nat) (hi : i < n) :
+    (Rep.toFull (.diag n (mulDiag d e))).e i j
+      = (matmul (Rep.toFull (.diag n d)) (Rep.toFull (.diag n e))).e i j := by
+  rw [(matmul_spec _ _ i j).1]
+  simp only [Rep.toFull, mulDiag]
+  rw [sum_diag_row n d (fun k => if k = j then e k else 0) i hi]
+  by_cases h : i = j <;> simp [h]
+
+/-- `leftmultiply(M)`: *this becomes M · *this -/
+theorem leftmul_spec (A M : Mat R) (i j : Nat) :
+    (leftmultiply A M).e i j = ∑ k ∈ range A.rows, M.e i k * A.e k j
+    ∧ (M.cols = A.rows → (leftmultiply A M).e i j = (matmul M A).e i j) := by
+  refine ⟨sumLoop_eq _ _, fun h => ?_⟩
+  rw [(matmul_spec M A i j).1, h]; exact sumLoop_eq _ _
+
+/-- `rightmultiply(M)`: *this becomes *this · M -/
+theorem rightmul_spec (A M : Mat R) (i j : Nat) :
+    (rightmultiply A M).e i j = ∑ k ∈ range A.cols, A.e i k * M.e k j
+    ∧ (rightmultiply A M).e i j = (matmul A M).e i j := by
+  refine ⟨sumLoop_eq _ _, ?_⟩
+  rw [(matmul_spec A M i j).1]; exact sumLoop_eq _ _
+
+/-- `leftmultiplyany(M)` returns M · *this -/
+theorem leftmultiplyany_spec (A M : Mat R) (i j : Nat) :
+    (leftmultiplyany A M).e i j = ∑ k ∈ range A.rows, M.e i k * A.e k j
+    ∧ (leftmultiplyany A M).rows = M.rows ∧ (leftmultiplyany A M).cols = A.cols :=
+  ⟨sumLoop_eq _ _, rfl, rfl⟩
+
+/-- `rightmultiplyany(M)` returns *this · M -/
+theorem rightmultiplyany_spec (A M : Mat R) (i j : Nat) :
+    (rightmultiplyany A M).e i j = ∑ k ∈ range A.cols, A.e i k * M.e k j
+    ∧ (rightmultiplyany A M).rows = A.rows ∧ (rightmultiplyany A M).cols = M.cols :=
+  ⟨sumLoop_eq _ _, rfl, rfl⟩
+
+/-- the FieldMatrix<K,1,1> specialisations agree with the general loops -/
+theorem mul11_specialisations (A M : Mat R) (i j : Nat) :
+    (A.cols = 1 → (rightmultiply11 A M).e 0 0 = (rightmultiply A M).e 0 0)
+    ∧ (A.rows = 1 → (leftmultiplyany11 A M).e i 0 = (leftmultiplyany A M).e i 0)
+    ∧ (A.cols = 1 → (rightmultiplyany11 A M).e 0 j = (rightmultiplyany A M).e 0 j) := by
+  refine ⟨fun h => ?_, fun h => ?_, fun h => ?_⟩
+  · simp [rightmultiply11, (rightmul_spec A M 0 0).1, h]
+  · simp [leftmultiplyany11, (leftmultiplyany_spec A M i 0).1, h]
+  · simp [rightmultiplyany11, (rightmultiplyany_spec A M 0 j).1, h, mul_comm]
+
+/-- `FMatrixHelp::multTransposedMatrix` computes Aᵀ A -/
+theorem multTransposedMatrix_spec (A : Mat R) (i j : Nat) :
+    (multTransposedMatrix A).e i j = (matmul (transposed A) A).e i j := by
+  rw [(matmul_spec _ _ i j).1]; exact sumLoop_eq _ _
+
+-- non-vacuity: [[1,2],[3,4]] * [[0,1],[1,0]] = [[2,1],[4,3]] over Int
+example : (List.range 2).map (fun i => (List.range 2).map ((matmul (⟨2, 2, fun i j => 2*i+j+1⟩ : Mat Int)
+    ⟨2, 2, fun i j => if i = j then 0 else 1⟩).e i)) = [[2, 1], [4, 3]] := by decide
+
+/-! ## transposition -/
+
+omit [CommRing R] in
+theorem transposed_spec (A : Mat R) (i j : Nat) :
+    (transposed A).e i j = A.e j i ∧ (transposed A).rows = A.cols ∧ (transposed A).cols = A.rows :=
+  ⟨rfl, rfl, rfl⟩
+
+omit [CommRing R] in
+theorem transposed_involutive (A : Mat R) : transposed (transposed A) = A := rfl
+
+/-- `transposed()`, `transpose()` and `asDense()` of any representation are the transpose of its full matrix; diagonal
+and 1x1 matrices (which return themselves) are their own transpose; the dense copy of a transposed view transposed
+back is the wrapped matrix -/
+theorem rep_transposed_spec (r : Rep R) (n : Nat) (d : Nat → R) (a : R) (i j : Nat) :
+    r.transposedFull.e i j = r.toFull.e j i
+    ∧ (Rep.transposedFull (.diag n d)).e i j = (Rep.toFull (.diag n d)).e i j
+    ∧ (Rep.transposedFull (.scalar a)).e i j = (Rep.toFull (.scalar a)).e i j
+    ∧ transposeMat (Rep.toFull (.transposed r)) = r.toFull := by
+  refine ⟨rfl, ?_, rfl, rfl⟩
+  simp only [Rep.transposedFull, transposeMat, Rep.toFull]
+  by_cases h : i = j
+  · subst h; simp
+  · have h' : ¬ j = i := fun e => h e.symm
+    simp [h, h']
+
+/-! ## vector-space operations -/
+
+/-- vectors: `+=`/`+`, `-=`/`-`, unary `-`, `+= k`, `-= k`, `*= k` / `v*k` / `k*v`, `axpy` -/
+theorem vec_ops_spec (x y : Nat → R) (k a : R) (i : Nat) :
+    vadd x y i = x i + y i ∧ vsub x y i = x i - y i ∧ vneg x i = - x i
+    ∧ vaddScalar x k i = x i + k ∧ vsubScalar x k i = x i - k
+    ∧ vscale x k i = k * x i ∧ vscaleL k x i = k * x i
+    ∧ vaxpy y a x i = y i + a * x i :=
+  ⟨rfl, rfl, rfl, rfl, rfl, mul_comm _ _, rfl, rfl⟩
+
+/-- division by a scalar, over a field: `(x / k)ᵢ = xᵢ / k`, and it undoes the multiplication by `k ≠ 0` -/
+theorem vec_div_spec {F : Type*} [Field F] (x : Nat → F) (k : F) (i : Nat) :
+    vdiv x k i = x i / k ∧ (k ≠ 0 → vdiv (vscale x k) k i = x i) := by
+  refine ⟨rfl, fun hk => ?_⟩
+  simp [vdiv, vscale, hk]
+
+omit [CommRing R] in
+/-- `operator==` of vectors / matrices decides entrywise equality (`!=` is its negation in the code) -/
+theorem eq_ops_spec [DecidableEq R] (n : Nat) (x y : Nat → R) (A B : Mat R) :
+    (veq n x y = true ↔ ∀ i, i < n → x i = y i)
+    ∧ (meq A B = true ↔ ∀ i, i < A.rows → ∀ j, j < A.cols → A.e i j = B.e i j) := by
+  have hv : ∀ (n : Nat) (x y : Nat → R), veq n x y = true ↔ ∀ i, i < n → x i = y i := by
+    intro n x y; simp [veq, allN_iff]
+  refine ⟨hv n x y, ?_⟩
+  simp only [meq, allN_iff, hv]
+
+/-- matrices: `+=`/`+`, `-=`/`-`, `*= k` / `A*k` / `k*A`, `axpy`, unary `-` -/
+theorem mat_ops_spec (A B : Mat R) (k a : R) (i j : Nat) :
+    (madd A B).e i j = A.e i j + B.e i j ∧ (msub A B).e i j = A.e i j - B.e i j
+    ∧ (mscale A k).e i j = k * A.e i j ∧ (mscaleL k A).e i j = k * A.e i j
+    ∧ (maxpy A a B).e i j = A.e i j + a * B.e i j ∧ (mneg A).e i j = - A.e i j :=
+  ⟨rfl, rfl, mul_comm _ _, rfl, rfl, rfl⟩
+
+theorem mat_div_spec {F : Type*} [Field F] (A : Mat F) (k : F) (i j : Nat) :
+    (mdiv A k).e i j = A.e i j / k := rfl
+
+/-- `dot` conjugates its FIRST argument: a·b = Σ conj(aᵢ) bᵢ -/
+theorem dot_conj_first (n : Nat) (a b : Nat → R) :
+    vdot conj n a b = ∑ i ∈ range n, conj (a i) * b i := sumLoop_eq _ _
+
+/-- `operator*` (dotT) does not conjugate -/
+theorem dotT_spec (n : Nat) (a b : Nat → R) : vdotT n a b = ∑ i ∈ range n, a i * b i := sumLoop_eq _ _
+
+/-- with a ring involution the dot product is conjugate-symmetric, and it is `operator*` when conj is the identity -/
+theorem dot_conj_symm [StarRing R] (n : Nat) (a b : Nat → R) :
+    vdot star n b a = star (vdot star n a b) := by
+  rw [dot_conj_first, dot_conj_first, star_sum]
+  apply Finset.sum_congr rfl
+  intro i _
+  rw [star_mul', star_star, mul_comm]
+
+theorem dot_real (hid : ∀ z : R, conj z = z) (n : Nat) (a b : Nat → R) : vdot conj n a b = vdotT n a b := by
+  rw [dot_conj_first, dotT_spec]; simp [hid]
+
+-- non-vacuity: conj = negation on Int makes the two products differ
+example : vdot (fun z : Int => -z) 2 (fun i => i + 1) (fun _ => 1) = -3 ∧ vdotT 2 (fun i => (i : Int) + 1) (fun _ => 1) = 3 := by
+  decide
+
 end DV.C01
